@@ -271,7 +271,18 @@ fn gen_book_case(r: &mut Rng, max_events: u64, adversarial: bool) -> (Vec<Ev>, u
 }
 
 fn emit_book(em: &mut Emitter, stream: &'static str, evs: &[Ev], depth: usize) {
-    let (coq, tags) = run_book_case(evs, depth);
+    let evs2 = evs.to_vec();
+    let (coq, tags) = match catch(move || run_book_case(&evs2, depth)) {
+        Ok(x) => x,
+        Err(_) => (
+            format!(
+                "(CBookPanic {} {})",
+                list(&evs.iter().map(|e| e.coq()).collect::<Vec<_>>()),
+                n(depth as u128)
+            ),
+            vec!["panicked".to_string()],
+        ),
+    };
     let nontrivial = evs.iter().any(|e| !e.bids.is_empty() || !e.asks.is_empty());
     em.emit(Case {
         stream,
@@ -288,7 +299,15 @@ fn emit_side(
     init: &[(Decimal, Decimal)],
     ups: &[(Decimal, Decimal)],
 ) {
-    let coq = run_side_case(bid, init, ups);
+    let (i2, u2) = (init.to_vec(), ups.to_vec());
+    let coq = catch(move || run_side_case(bid, &i2, &u2)).unwrap_or_else(|_| {
+        format!(
+            "(CSidePanic {} {} {})",
+            if bid { "Bid" } else { "Ask" },
+            coq_raw(init),
+            coq_raw(ups)
+        )
+    });
     em.emit(Case {
         stream,
         input: json!({"kind": "side", "bid": bid, "init": levels_json(init), "ups": levels_json(ups)}),
